@@ -1,4 +1,5 @@
 import Libp2pModel.Model.C47
+import Libp2pModel.Proofs.C47_handler
 import Libp2pModel.Common.Machine
 /-!
 # C47 — relay resource limits hold: property theorems
@@ -293,6 +294,100 @@ theorem handler_race_exceeds :
        .resReq 0 0 true true, .resTimedOut 0 0, .resReq 0 1 false true, .resAccepted 0 1, .resAccepted 0 0]
     activeOf st.conns 0 = 2 := by decide
 
+/-! ## the handler contract is a consequence of the (repaired) handler
+
+`C47h` composes one connection's handler with the behaviour's record of that connection through
+the two event queues.  `bActive` there is the projection `(p, c, true) ∈ st.conns` of the behaviour
+model here (`proj_*` below); `headOk` is `OpOk` for the event at the head of the queue. -/
+
+/-- **`OpOk` holds with the repaired handler**: in every reachable state of the asynchronous
+composition (any interleaving of requests, expiry, answers, completions and admission outcomes)
+the event the behaviour processes next satisfies the contract. -/
+theorem handler_contract (acts : List C47h.Act) :
+    ∀ s, C47h.run true C47h.Sys.init acts = some s → C47h.headOk s = true := by
+  suffices h : ∀ (acts : List C47h.Act) (s0 s : C47h.Sys), C47h.Inv s0 → C47h.run true s0 acts = some s → C47h.Inv s by
+    intro s hr; exact C47h.headOk_of_inv s (h acts _ s C47h.Inv.init hr)
+  intro acts
+  induction acts with
+  | nil => intro s0 s h hr; simp only [C47h.run, Option.some.injEq] at hr; subst hr; exact h
+  | cons a as ih =>
+    intro s0 s h hr
+    simp only [C47h.run] at hr
+    cases hs : C47h.step true s0 a with
+    | none => rw [hs] at hr; simp at hr
+    | some s1 => rw [hs] at hr; exact ih s1 s (C47h.step_inv s0 s1 a h hs) hr
+
+/-- the handler as it was: the renewal's expiry is reported while the request is in flight, the
+behaviour forgets the connection, and `ReservationReqAccepted` arrives for a connection that is
+not recorded active (`findings/C47-renewal-expiry-race.md`) -/
+theorem renewal_expiry_race_buggy_counterexample :
+    (C47h.run false C47h.Sys.init
+      [.request, .process true, .command, .complete true, .process true,   -- first reservation
+       .request, .expire, .process true, .process true, .command, .complete true]).map C47h.headOk
+      = some false := by decide
+
+/-- … and what the behaviour then does with it: `expect("valid connection")` panics when that was
+the peer's only connection -/
+theorem renewal_expiry_race_buggy_counterexample_panic :
+    (step Variant.repaired ⟨4, 1, 4, 1⟩
+      (Machine.exec (step Variant.repaired ⟨4, 1, 4, 1⟩) St.empty
+        [.established 0 0, .resReq 0 0 false true, .resAccepted 0 0, .resReq 0 0 true true, .resTimedOut 0 0])
+      (.resAccepted 0 0)).2 = .panic := by decide
+
+theorem mem_removeConn (l : List (Peer × Conn × Bool)) (p : Peer) (c : Conn) (e : Peer × Conn × Bool) :
+    e ∈ removeConn l p c ↔ e ∈ l ∧ ¬ (e.1 = p ∧ e.2.1 = c) := by
+  simp only [removeConn, isKey, List.mem_filter, Bool.not_eq_true', Bool.and_eq_false_iff, beq_eq_false_iff_ne,
+    ne_eq, not_and]
+  constructor
+  · rintro ⟨h1, h2⟩; exact ⟨h1, fun hp hc => by rcases h2 with h | h <;> contradiction⟩
+  · rintro ⟨h1, h2⟩
+    refine ⟨h1, ?_⟩
+    by_cases hp : e.1 = p
+    · exact Or.inr (h2 hp)
+    · exact Or.inl hp
+
+theorem mem_setConn (l : List (Peer × Conn × Bool)) (p : Peer) (c : Conn) (a : Bool) (e : Peer × Conn × Bool) :
+    e ∈ setConn l p c a ↔ (e ∈ l ∧ ¬ (e.1 = p ∧ e.2.1 = c)) ∨ e = (p, c, a) := by
+  simp [setConn, mem_removeConn]
+
+/-- the behaviour's record of connection `(p, c)` under its own events is what `C47h.step`'s
+`process` does to `bActive` -/
+theorem proj_resReq (cfg : Cfg) (st : St) (p : Peer) (c : Conn) (renewed rate : Bool) :
+    let r := step Variant.repaired cfg st (.resReq p c renewed rate)
+    (r.2 = .resAccept → (p, c, true) ∈ r.1.conns) ∧ (r.2 = .resDeny → r.1 = st) := by
+  simp only [step]
+  split
+  · exact ⟨fun h => by simp at h, fun _ => rfl⟩
+  · exact ⟨fun _ => by simp [mem_setConn], fun h => by simp at h⟩
+
+theorem proj_resTimedOut (cfg : Cfg) (st : St) (p : Peer) (c : Conn) :
+    let r := step Variant.repaired cfg st (.resTimedOut p c)
+    r.2 = .none → (p, c, true) ∉ r.1.conns := by
+  simp only [step]
+  split
+  · intro _; simp [mem_removeConn]
+  · intro h; simp at h
+
+theorem proj_resAccepted (cfg : Cfg) (st : St) (p : Peer) (c : Conn) :
+    let r := step Variant.repaired cfg st (.resAccepted p c)
+    r.2 = .none → (p, c, true) ∈ r.1.conns := by
+  simp only [step]
+  split
+  · intro _; simp [mem_setConn]
+  · intro h; simp at h
+
+/-- reservation events of another connection do not touch the record of `(p, c)` -/
+theorem proj_other (cfg : Cfg) (st : St) (p q : Peer) (c k : Conn) (hne : ¬ (p = q ∧ c = k)) (a : Bool)
+    (op : Op) (hop : op = .resReq q k a true ∨ op = .resAccepted q k ∨ op = .resTimedOut q k ∨ op = .established q k) :
+    (p, c, true) ∈ (step Variant.repaired cfg st op).1.conns ↔ (p, c, true) ∈ st.conns := by
+  have hk : ¬ ((p, c, true) : Peer × Conn × Bool) = (q, k, true) := by
+    intro h; simp only [Prod.mk.injEq] at h; exact hne ⟨h.1, h.2.1⟩
+  rcases hop with rfl | rfl | rfl | rfl <;> simp only [step]
+  · split <;> simp [mem_setConn, hne, hk]
+  · split <;> simp [mem_setConn, hne, hk]
+  · split <;> simp [mem_removeConn, hne]
+  · simp [mem_setConn, hne]
+
 /-! ## non-vacuity -/
 
 /-- a trace within the contract that reaches every limit exactly -/
@@ -323,3 +418,10 @@ end C47
 #print axioms C47.per_peer_off_by_one_buggy_counterexample_circuits
 #print axioms C47.dst_circuits_unchecked_buggy_counterexample
 #print axioms C47.handler_race_exceeds
+#print axioms C47.handler_contract
+#print axioms C47.renewal_expiry_race_buggy_counterexample
+#print axioms C47.renewal_expiry_race_buggy_counterexample_panic
+#print axioms C47.proj_resReq
+#print axioms C47.proj_resTimedOut
+#print axioms C47.proj_resAccepted
+#print axioms C47.proj_other
